@@ -243,7 +243,7 @@ def _scalable(tu, ru):
     return tu in base and ru in base and base[tu] == base[ru]
 
 
-def _tag_expect(E, multi, rank, npos, next_, units, dunits, has_ref):
+def _tag_expect(E, multi, rank, npos, next_, units, dunits, has_ref, d2units=None):
     want = []
     if npos == 0:
         want.append(E.NoPositions if multi else E.NoPosition)
@@ -255,27 +255,31 @@ def _tag_expect(E, multi, rank, npos, next_, units, dunits, has_ref):
                 want.append(E.PositionsExtentsMismatch if multi else E.PositionExtentMismatch)
             if next_ != rank:
                 want.append(E.ExtentsDimensionMismatch if multi else E.ExtentDimensionMismatch)
-        ru = [d if d else "" for d in dunits]
-        if len(ru) != len(units):
+        refs = [dunits] + ([d2units] if d2units is not None else [])
+        rus = [[d if d else "" for d in du] for du in refs]
+        if any(len(ru) != len(units) for ru in rus):
             want.append(E.ReferenceUnitsMismatch)
-        for tu, r in zip(units, ru):
-            if tu == "" and r == "":
-                continue
-            if not _scalable(tu, r):
-                want.append(E.ReferenceUnitsIncompatible)
-                break
+        incompatible = False
+        for ru in rus:
+            for tu, r in zip(units, ru):
+                if tu == "" and r == "":
+                    continue
+                if not _scalable(tu, r):
+                    incompatible = True
+        if incompatible:
+            want.append(E.ReferenceUnitsIncompatible)
     if any(u and not (u in ("ms", "s", "mV")) for u in units):
         want.append(E.InvalidUnit)
     return want
 
 
-KNOBS = ["npos", "next", "nun", "unit", "dimunit", "noref", "rows"]
+KNOBS = ["npos", "next", "nun", "unit", "dimunit", "noref", "rows", "ref2unit"]
 
 
 def _recipe(rank, budget, multi, i1, v1, s1, i2, v2, s2):
     """consistent base + at most `budget` injections -> recipe dict"""
     r = {"npos": rank, "next": rank, "nun": rank, "slot": 0, "uv": 0, "dslot": 0, "dv": 1,
-         "has_ref": True, "rows": False}
+         "has_ref": True, "rows": False, "d2slot": 0, "d2v": 1}
     inj = [(i1, v1, s1)]
     if budget >= 2:
         assume(i1 < i2)               # two DIFFERENT knobs, ordered
@@ -293,6 +297,9 @@ def _recipe(rank, budget, multi, i1, v1, s1, i2, v2, s2):
         elif knob == "dimunit":
             assume(0 <= v < 3 and 0 <= sl < rank)
             r["dv"], r["dslot"] = v, sl
+        elif knob == "ref2unit":
+            assume(0 <= v < 3 and 0 <= sl < rank)
+            r["d2v"], r["d2slot"] = v, sl
         elif knob == "noref":
             r["has_ref"] = False
         else:
@@ -304,7 +311,7 @@ def _recipe(rank, budget, multi, i1, v1, s1, i2, v2, s2):
 
 def _ob_tag(i1: int, v1: int, s1: int, i2: int, v2: int, s2: int) -> bool:
     """
-    pre: 0 <= i1 < 8 and 0 <= i2 < 8
+    pre: 0 <= i1 < 9 and 0 <= i2 < 9
     post: __return__
     """
     import numpy as np
@@ -328,9 +335,15 @@ def _ob_tag(i1: int, v1: int, s1: int, i2: int, v2: int, s2: int) -> bool:
         tag.extent = [1.0] * next_
     if nun > 0:
         tag._h5group.write_data("units", list(units), nixio_dt_string())
+    d2units = ["ms"] * rank
+    d2units[r["d2slot"]] = _pick(DUNITS, r["d2v"])
     if has_ref:
+        ref2 = blk.create_data_array("ref2", "t", data=np.zeros((3, 2)[:rank]))
+        for d in range(rank):
+            ref2.append_sampled_dimension(1.0, unit=d2units[d])
         tag.references.append(ref)
-    want = _tag_expect(E, False, rank, npos, next_, units, dunits, has_ref)
+        tag.references.append(ref2)
+    want = _tag_expect(E, False, rank, npos, next_, units, dunits, has_ref, d2units)
     return _same_report(_errors(f), {tag.id: want})
 
 
@@ -341,7 +354,7 @@ def nixio_dt_string():
 
 def _ob_multi_tag(i1: int, v1: int, s1: int, i2: int, v2: int, s2: int) -> bool:
     """
-    pre: 0 <= i1 < 8 and 0 <= i2 < 8
+    pre: 0 <= i1 < 9 and 0 <= i2 < 9
     post: __return__
     """
     import numpy as np
@@ -370,9 +383,15 @@ def _ob_multi_tag(i1: int, v1: int, s1: int, i2: int, v2: int, s2: int) -> bool:
         mt.extents = ext
     if nun > 0:
         mt._h5group.write_data("units", list(units), nixio_dt_string())
+    d2units = ["ms"] * rank
+    d2units[r["d2slot"]] = _pick(DUNITS, r["d2v"])
     if has_ref:
+        ref2 = blk.create_data_array("ref2", "t", data=np.zeros((3, 2)[:rank]))
+        for d in range(rank):
+            ref2.append_sampled_dimension(1.0, unit=d2units[d])
         mt.references.append(ref)
-    want = _tag_expect(E, True, rank, npos, next_, units, dunits, has_ref)
+        mt.references.append(ref2)
+    want = _tag_expect(E, True, rank, npos, next_, units, dunits, has_ref, d2units)
     if has_ref and next_ > 0 and rows_differ and next_ == npos:
         want.append(E.PositionsExtentsMismatch)       # shapes differ in the row count
     return _same_report(_errors(f), {mt.id: want})
